@@ -106,3 +106,19 @@ End Proofs.
 (* what the executable wrapper returns is the generic model run on a certified inverse *)
 Lemma run_inverse_certified n A Mi : inv_checked n A = Some Mi -> is_inverse n A Mi.
 Proof. apply inv_checked_sound. Qed.
+
+(* Multitask models flatten (point i, task a) to i*T + a (interleaved).  Splitting the
+   flattened joint over [train; test] points at num_train = n*T separates train from test
+   points exactly; in the non-interleaved layout a*(n+t) + i it does not. *)
+Lemma interleaved_split n T i a : (a < T)%nat -> ((i * T + a < n * T)%nat <-> (i < n)%nat).
+Proof. intros Ha. split; intros H; nia. Qed.
+
+Lemma noninterleaved_split_refuted :
+  exists n t T i a, (a < T)%nat /\ (i < n)%nat /\ ~ (a * (n + t) + i < n * T)%nat.
+Proof. exists 2%nat, 3%nat, 2%nat, 1%nat, 1%nat. repeat split; lia. Qed.
+
+(* eager (slice the materialised joint) and lazy (slice, then evaluate) kernel paths produce
+   the same blocks: slicing commutes with entrywise evaluation *)
+Lemma eager_lazy_blocks_agree {K : Fld} (k : nat -> nat -> car) r c p q :
+  meq p q (sub r c (fun i j => k i j)) (fun i j => k (r + i)%nat (c + j)%nat).
+Proof. intros i j _ _. reflexivity. Qed.
